@@ -95,7 +95,23 @@ def make_value(spec):
         return P.A(v=spec["x"])
     if k == "obj":
         return object()
+    if k == "future":
+        # a legitimate RESULT that happens to be awaitable: must be returned as it is, never awaited by a wrapper
+        import concurrent.futures
+
+        f = concurrent.futures.Future()
+        f.set_result(42)
+        return _AwaitableResult(f)
     raise ValueError(k)
+
+
+class _AwaitableResult:
+    def __init__(self, inner):
+        self.inner = inner
+
+    def __await__(self):
+        raise AssertionError("the result object was awaited by a wrapper")
+        yield  # pragma: no cover
 
 
 def render_sig(sig, method):
@@ -233,13 +249,27 @@ def run_case(case) -> Outcome:  # noqa: C901, PLR0912, PLR0915
                 raise raised_obj
             return result_value
 
+    async def _abody(loc):
+        """for the 'cancelled' outcome of async originals: suspend until the caller cancels"""
+        r = _body(loc)
+        if outcome["kind"] == "cancelled":
+            seen["suspended"] = True
+            await asyncio.get_running_loop().create_future()
+        return r
+
     params = render_sig(sig, method)
     kw = "async def" if is_async_orig else "def"
     ns: dict = {"_body": _body}
+    if outcome["kind"] == "cancelled":
+        ns["_body"] = _abody
+    has_doc = not case.get("nodoc")
+    want_doc = "doc of target" if has_doc else None  # a function without a docstring must stay without one
+    docline = "'doc of target'" if has_doc else "pass"
+    call_body = "await _body(locals())" if outcome["kind"] == "cancelled" else "_body(locals())"
     if method:
-        src = f"class Holder:\n    {kw} target({params}):\n        'doc of target'\n        return _body(locals())\n"
+        src = f"class Holder:\n    {kw} target({params}):\n        {docline}\n        return {call_body}\n"
     else:
-        src = f"{kw} target({params}):\n    'doc of target'\n    return _body(locals())\n"
+        src = f"{kw} target({params}):\n    {docline}\n    return {call_body}\n"
     exec(compile(src, "<c18>", "exec", dont_inherit=True), ns)  # noqa: S102 - generated from our own signature AST
     original = ns["Holder"].__dict__["target"] if method else ns["target"]
     executor = ThreadPoolExecutor(2) if case.get("executor") == "explicit" or dec == "asynchronous_executor" else None
@@ -278,7 +308,7 @@ def run_case(case) -> Outcome:  # noqa: C901, PLR0912, PLR0915
         obj = Holder()
     # ---------------------------------------------------------------- metadata
     def check_meta(w, where):
-        for attr, want in (("__name__", "target"), ("__doc__", "doc of target")):
+        for attr, want in (("__name__", "target"), ("__doc__", want_doc)):
             got = getattr(w, attr, None)
             if got != want:
                 out.violate("meta", f"C18.meta/{attr}-lost/{dec}/{where}", f"{got!r}")
@@ -327,7 +357,15 @@ def run_case(case) -> Outcome:  # noqa: C901, PLR0912, PLR0915
             obs["fp_before"] = fingerprint(labels)
             try:
                 r = target(*a, **kwargs)
-                if not sync_dec:
+                if outcome["kind"] == "cancelled":
+                    t = loop.create_task(r)
+                    for _ in range(20):
+                        await asyncio.sleep(0)
+                        if seen.get("suspended"):
+                            break
+                    t.cancel()
+                    r = await t
+                elif not sync_dec:
                     r = await r
                 obs["result"] = ("ret", r)
             except BaseException as exc:  # noqa: BLE001 - the observation
@@ -404,7 +442,10 @@ def run_case(case) -> Outcome:  # noqa: C901, PLR0912, PLR0915
     else:
         if not _same_locals(seen["locals"], expected_locals):
             out.violate("transparent", f"C18.transparent/arguments-changed/{tag}", f"received {seen['locals']!r} expected {expected_locals!r}")
-        if outcome["kind"] == "return":
+        if outcome["kind"] == "cancelled":
+            if rk != "exc" or not isinstance(rv, asyncio.CancelledError):
+                out.violate("transparent", f"C18.transparent/cancellation-not-propagated/{tag}", f"{obs.get('result')!r}")
+        elif outcome["kind"] == "return":
             if rk != "ret" or rv is not result_value:
                 out.violate("transparent", f"C18.transparent/result-changed/{tag}", f"{obs.get('result')!r} vs {result_value!r}")
         elif rk != "exc" or rv is not raised_obj:
@@ -447,7 +488,10 @@ def run_case(case) -> Outcome:  # noqa: C901, PLR0912, PLR0915
                 out.violate("traced", f"C18.traced/wrong-arguments-recorded/{tag}", f"{got_a!r} {got_k!r} vs {exp_a!r} {exp_k!r}")
         want = result_value if outcome["kind"] == "return" else raised_obj
         if not rt:
-            out.violate("traced", f"C18.traced/result-not-recorded/{tag}", f"{coll}")
+            out.violate("traced", f"C18.traced/result-not-recorded/{tag}/{outcome['kind']}", f"{coll}")
+        elif outcome["kind"] == "cancelled":
+            if not isinstance(rt[0].result, asyncio.CancelledError):
+                out.violate("traced", f"C18.traced/wrong-result-recorded/{tag}/cancelled", f"{rt[0].result!r}")
         elif rt[0].result is not want:
             out.violate("traced", f"C18.traced/wrong-result-recorded/{tag}", f"{rt[0].result!r} vs {want!r}")
         started = [r for r in captured if "Started" in str(r.msg) and "[target]" in str(r.msg)]
@@ -524,6 +568,7 @@ def strategy(tier):
             st.just({"k": "none"}),
             st.builds(lambda x: {"k": "state", "x": x}, st.integers(0, 5)),
             st.just({"k": "obj"}),
+            st.just({"k": "future"}),
         ),
         lambda ch: st.one_of(
             st.builds(lambda xs: {"k": "list", "items": xs}, st.lists(ch, max_size=2)),
@@ -574,6 +619,10 @@ def strategy(tier):
             outcome = {"kind": "raise", "v": {"x": draw(st.sampled_from(["FnErr", "ValueError", "KeyError"] + ([] if dec in ("retry",) else ["FnBase"])))}}
         if dec == "retry" and kind == "raise":
             outcome = {"kind": "return", "v": draw(value)}  # retry's own behaviour is C14's subject
+        if dec in ("wrap_async_sync", "asynchronous_bare", "asynchronous_call", "traced_sync") and outcome["kind"] == "return" and draw(st.integers(0, 3)) == 0:
+            outcome = {"kind": "return", "v": {"k": "future"}}  # the function's own result is an awaitable object
+        if dec in ("traced_async", "wrap_async_async") and draw(st.integers(0, 4)) == 0:
+            outcome = {"kind": "cancelled", "v": {"k": "none"}}  # the call is cancelled while suspended inside the function
         nest = draw(st.lists(st.lists(P.sv_strategy(), max_size=2), max_size=3))
         return {
             "dec": dec,
@@ -582,6 +631,7 @@ def strategy(tier):
             "call": {"args": args, "kwargs": kwargs},
             "outcome": outcome,
             "nest": nest,
+            "nodoc": draw(st.integers(0, 5)) == 0,
             "executor": draw(st.sampled_from(["default", "default", "explicit"])) if dec in ("asynchronous_executor",) else "default",
         }
 
